@@ -24,6 +24,10 @@
    announced, every reply that falls due (a queued request leaves the wait queue) is delivered -- to its open owner, or,
    the owner being closed, to a connection of the same client id -- and is lost only when no open connection currently
    announces that id, the census and the session table drain to zero, Close terminates.
+4. Interleavings inside one action (corpus/C18/*.race, harness action `raceclose <conn> <yield point> <action>`: <conn> ends
+   at the moment a goroutine passes the yield point): beyond the model's step granularity, run on the Go code and judged
+   by the monitor only.  The one yield point used (13, between AddProxy and the assignment of the proxy target) is not in
+   /repo: proposed_fixes/c18_proxy_adopt_yield_point.diff; without it the scenarios run without the interleaving.
 """
 import collections, glob, json, os, re, shutil, subprocess, sys, tempfile, time
 from tools import vlib
@@ -99,13 +103,23 @@ def derive_flags(repo):
         flags["fix_text_closed"] = False
     else:
         flags["fix_text_closed"] = re.search(r"if self\.closed \{\s*return", b[:b.index("self.lockWaiter <-")]) is not None
-    # the proxy is re-pointed to clients[clientId] only when that connection accepted it
+    # the proxy is re-pointed to clients[clientId] only when that connection accepted it: either the assignment in
+    # ProxyServerProtocol.ProcessLockResultCommandLocked is guarded by the AddProxy result, or (c18_proxy_adopt_atomic.diff)
+    # AddProxy itself assigns the target after its closed check, under the adopter's mutex, and nothing is assigned outside
     b = func_body(src, "ProxyServerProtocol", "ProcessLockResultCommandLocked")
-    if b is None or "serverProtocol.AddProxy(self)" not in b or "self.serverProtocol = serverProtocol" not in b:
+    if b is None or "serverProtocol.AddProxy(self)" not in b:
         problems.append("ProxyServerProtocol.ProcessLockResultCommandLocked: adoption of the proxy not recognised")
         flags["chk_addproxy"] = False
+    elif "self.serverProtocol = serverProtocol" in b:
+        flags["chk_addproxy"] = re.search(r"err\s*:?=\s*serverProtocol\.AddProxy\(self\)\s*\n(\s*verifPoint\(\d+\)\s*\n)?\s*if err == nil \{\s*\n\s*self\.serverProtocol = serverProtocol\s*\n\s*\}", b) is not None
     else:
-        flags["chk_addproxy"] = re.search(r"err\s*:?=\s*serverProtocol\.AddProxy\(self\)\s*\n\s*if err == nil \{\s*\n\s*self\.serverProtocol = serverProtocol\s*\n\s*\}", b) is not None
+        inside = []
+        for recv in ("BinaryServerProtocol", "TextServerProtocol"):
+            ab = func_body(src, recv, "AddProxy") or ""
+            inside.append(re.search(r"if self\.closed \{.*?return errors\.New\(\"closed\"\)\s*\}.*?proxy\.serverProtocol = self\s*\n\s*self\.glock\.Unlock\(\)", ab, flags=re.S) is not None)
+        flags["chk_addproxy"] = all(inside)
+        if not all(inside):
+            problems.append("the proxy target is assigned neither in ProxyServerProtocol.ProcessLockResultCommandLocked nor in AddProxy")
     # shape of the pieces the model transcribes (a refactor must be looked at by a human: the tie is then reported broken)
     for recv, fn, needles in (
             ("BinaryServerProtocol", "Close", ["self.closed = true", "proxy.serverProtocol = defaultServerProtocol", "willCommands.Pop()", "_ = self.ProcessCommad(command)", "delete(self.slock.clients, self.proxys[0].clientId)"]),
@@ -672,11 +686,21 @@ def monitor(case, lines):
     table = {}          # client id -> the connection that announced it last and has neither closed nor re-INITed since
     key_mentions = collections.Counter()
     for a in acts:
+        if a[0] == "raceclose":
+            a = a[3:]
         if a[0] in ("req", "will"):
             key_mentions[int(a[6])] += 1
     prev = None
+    racy = any(x[0] == "raceclose" for x in acts)
     for i, s in enumerate(steps):
         a = s.act
+        race_closed = None
+        if a[0] == "raceclose":
+            # raceclose <conn> <yield point> <action...>: <conn> was closed by its client inside <action>, at the moment a
+            # goroutine passed the yield point (harness); `racemiss`: the point was not passed, only <action> happened
+            if not s.ignored and not any(o and o[0] == "racemiss" for o in s.other):
+                race_closed = int(a[1])
+            a = a[3:]
         c = int(a[1]) if a[0] in ("open", "init", "req", "will", "close") else None
         if s.crash:
             viol.append(("close-crash:" + s.crash if a[0] == "close" else "crash:%s:%s" % (a[0], s.crash),
@@ -728,6 +752,9 @@ def monitor(case, lines):
         #      delivered to its open owner or, the owner being closed, to a connection of the same client id; lost only
         #      when no open connection currently announces that id
         closing = c if a[0] == "close" and not s.ignored else None
+        if race_closed is not None:
+            closed_at[race_closed] = i
+            closing = race_closed
         if prev is not None and s.snap is not None:
             for (k, lid, req, owner) in sorted(waiters_of(prev) - waiters_of(s)):
                 if not owner.isdigit():
@@ -762,7 +789,7 @@ def monitor(case, lines):
                 live = [d for d in sorted(kinds) if d not in closed_at and d != closing and announced.get(d) == X]
                 reg = table.get(X)
                 if reg is not None and reg in live:
-                    viol.append(("reply-lost:registered-live",
+                    viol.append(("reply-lost:registered-live" + (":adopt-race" if racy else ""),
                                  "the answer to request %s (key %d, lock id %d) of closed connection %d (client id %d) was dropped although connection %d, open, "
                                  "is the one that announced client id %d last -- the reply must be delivered to it" % (req, k, lid, o, X, reg, X), i))
                 elif live:
@@ -923,6 +950,24 @@ def load_corpus():
     return res
 
 
+def load_race_corpus():
+    """interleavings inside one action (harness action `raceclose`): beyond the model's step granularity, judged by the
+    monitor only"""
+    res = []
+    for f in sorted(glob.glob(os.path.join(VERIF, "corpus", "C18", "*.race"))):
+        cur = None
+        for l in (l.strip() for l in open(f)):
+            if not l or l.startswith("#"):
+                continue
+            if l.startswith("case "):
+                cur = ["case r:%s:%s %s" % (os.path.basename(f)[:-5], l.split()[1], " ".join(l.split()[2:]))]
+            elif cur is not None:
+                cur.append(l)
+                if l == "end":
+                    res.append(cur); cur = None
+    return res
+
+
 def run(ctx):
     t0 = time.time()
     thorough = ctx.tier == "thorough"
@@ -995,6 +1040,19 @@ def run(ctx):
             cases = cases[:b + per]
             break
 
+    # ---- 3b. interleavings inside one action (no model counterpart): implementation + monitor only
+    race_cases = [] if getattr(ctx, "replay", None) else load_race_corpus()
+    race_fired = 0
+    if race_cases:
+        pr = runner.run_impl(race_cases)
+        for c in race_cases:
+            li = pr.get(c[0].split()[1]) or []
+            fired = not any(l.startswith("ev racemiss") for l in li)
+            race_fired += fired
+            for sig, what, idx in monitor(c, li):
+                hits.setdefault(sig, []).append((c, what, idx))
+        if race_fired == 0:
+            ctx.notes.append("race scenarios: the tree has no yield point 13 (proposed_fixes/c18_proxy_adopt_yield_point.diff): %d scenario(s) ran without the interleaving" % len(race_cases))
     # ---- 4. verdicts
     for sig, lst in hits.items():
         c, what, idx = min(lst, key=lambda x: len(x[0]))
@@ -1034,7 +1092,8 @@ def run(ctx):
         "switches in force: " + ", ".join("%s=%s" % kv for kv in sorted(flags.items())) + " (derived from the source text by derive_flags)",
         "harness/conn/inj/zz_verif_conn.go: real Server.handle goroutines over an in-memory net.Conn (synchronous Write, flagged Read); quiescence = every "
         "connection goroutine finished, idle in Read, or parked on lockWaiter (goroutine dump); manual clock, sweeps replayed by the harness; "
-        "debug.SetMaxStack(4MB) so that unbounded recursion ends quickly",
+        "debug.SetMaxStack(4MB) so that unbounded recursion ends quickly; action `raceclose`: VerifPointHook closes a connection (client side) and waits "
+        "for its Server.handle to return at the first pass of the given yield point",
         "extraction: ExtrOcamlBasic only; ocaml/conn/driver.ml (parser, printer)",
         "not modelled: true interleaving of Close with an asynchronous reply (step granularity only: a reply is routed before a Close, while it drains its wills -- "
         "closed = true, still in SLock.clients --, or after it; not between two statements of Close), TCP / Stream buffering, binary buffered-write mode, "
@@ -1054,6 +1113,7 @@ def run(ctx):
         "process_crashes_observed": runner.crashes, "mismatches": len(mismatches),
         "monitor_signatures": {k: len(v) for k, v in hits.items()},
         "monitor_judged": dict(sorted(MON.items())),
+        "race_scenarios": len(race_cases), "race_scenarios_with_the_interleaving_taken": race_fired,
         "switches_in_force": flags, "coq_seconds": coq_s, "impl_seconds": round(runner.impl_s, 1), "model_seconds": round(runner.model_s, 1),
     }
     return ctx.finish(cov, assumptions=[
